@@ -196,7 +196,7 @@ def region_atomic(eng, f, entry, e1_pt, e2_pt, mutex):
     for b in bad:
         if b == e1_pt or b == e2_pt:
             continue
-        if cfg.exists_path(e1_pt, b, avoid=[e2_pt]) and cfg.exists_path(b, e2_pt, src_inclusive=True):
+        if cfg.exists_path(e1_pt, b, avoid=[e2_pt, e1_pt]) and cfg.exists_path(b, e2_pt, avoid=[e1_pt], src_inclusive=True):
             return False, b
     if mutex not in (res.get(e2_pt) or ()):
         return False, e2_pt
@@ -275,3 +275,68 @@ def lexical_guards(f, sid):
                 out.append((st['cond'], 'loop'))
         cur = a
     return out
+
+
+def simple_test(f, cond):
+    """(decl id, 'nz'|'z') when the condition is a plain test of a local variable: V, !V, V != 0/nullptr, V == 0/nullptr.
+    The tag says what the variable is on the *true* edge."""
+    cs = f.s(f.strip_casts(cond))
+    neg = False
+    while cs and cs['k'] == 'UnaryOperator' and cs.get('op') == '!':
+        neg = not neg
+        cs = f.s(f.strip_casts(cs['ch'][0]))
+    if cs is None:
+        return None
+    if cs['k'] == 'DeclRefExpr' and cs.get('dk') in ('Var', 'ParmVar'):
+        return cs['d'], ('z' if neg else 'nz')
+    if cs['k'] == 'BinaryOperator' and cs.get('op') in ('==', '!='):
+        l, r = f.s(f.strip_casts(cs['ch'][0])), f.s(f.strip_casts(cs['ch'][1]))
+        def isz(x):
+            return x is not None and (x['k'] in ('CXXNullPtrLiteralExpr', 'GNUNullExpr') or x.get('cv') == 0)
+        v = None
+        if l and l['k'] == 'DeclRefExpr' and l.get('dk') in ('Var', 'ParmVar') and isz(r):
+            v = l
+        elif r and r['k'] == 'DeclRefExpr' and r.get('dk') in ('Var', 'ParmVar') and isz(l):
+            v = r
+        if v is not None:
+            t = 'z' if cs['op'] == '==' else 'nz'
+            if neg:
+                t = 'z' if t == 'nz' else 'nz'
+            return v['d'], t
+    return None
+
+
+def correlated_filter(f, target_pt):
+    """edge filter that removes paths contradicting the simple variable tests guarding target_pt:
+    at every branch testing the same variable (same reaching definitions as at the target's guard) the
+    edge with the opposite outcome is infeasible on a path that reaches the target through its guard."""
+    from . import rd
+    want = {}
+    for cond, k, b in f.cfg.controlling_branches(target_pt):
+        t = simple_test(f, cond)
+        if t is None:
+            continue
+        decl, tag = t
+        val = tag if k == 0 else ('z' if tag == 'nz' else 'nz')
+        cp = f.cfg.point_of(cond)
+        want[decl] = (val, rd.reaching(f, decl, cp) if cp else None)
+    blocked = set()
+    for blk in f.cfg.blocks.values():
+        if blk.cond is None or len(blk.succ) != 2:
+            continue
+        t = simple_test(f, blk.cond)
+        if t is None or t[0] not in want:
+            continue
+        decl, tag = t
+        val, rds = want[decl]
+        cp = f.cfg.point_of(blk.cond)
+        if cp is None or rds is None or rd.reaching(f, decl, cp) != rds:
+            continue
+        # edge 0 gives `tag`, edge 1 gives the opposite
+        for k in (0, 1):
+            v = tag if k == 0 else ('z' if tag == 'nz' else 'nz')
+            if v != val:
+                blocked.add((blk.id, k))
+    if not blocked:
+        return None
+    return lambda b, k: (b, k) not in blocked
